@@ -14,6 +14,7 @@ the instant the faulty output function raises); the reported error must be the f
 from __future__ import annotations
 
 import asyncio
+import collections.abc
 import itertools
 
 import edzed
@@ -126,6 +127,45 @@ INIT_QUIET = ('ctl', 'sup', 'abort', 'early')       # no exception reaches run_f
 CANCEL_MARK = asyncio.CancelledError('harness: task.cancel()')
 
 
+class FlakyStore(collections.abc.MutableMapping):
+    """A storage (like shelve) in which reading one record fails with an I/O error."""
+    def __init__(self, data, bad_key):
+        self._d = dict(data)
+        self._bad = bad_key
+        self._reads = 0
+
+    def __getitem__(self, key):
+        if key == self._bad:
+            self._reads += 1
+            if self._reads == 1:
+                raise OSError('storage: cannot read the record')
+        return self._d[key]
+
+    def __setitem__(self, key, value):
+        self._d[key] = value
+
+    def __delitem__(self, key):
+        del self._d[key]
+
+    def __iter__(self):
+        return iter(self._d)
+
+    def __len__(self):
+        return len(self._d)
+
+
+class BadState(edzed.AddonPersistence, edzed.SBlock):
+    """Its state cannot be saved at the stop (a clean-up failure: only logged)."""
+    def init_regular(self):
+        self.set_output(0)
+
+    def _restore_state(self, state):
+        self.set_output(state)
+
+    def get_state(self):
+        raise ValueError('get_state() failed (intended)')
+
+
 class Tagged(Exception):
     """An error with a tag (so that identity and kind are both checkable)."""
 
@@ -204,7 +244,11 @@ def one_exec(cfg, chooser):
         ctl = edzed.OutputFunc('ctl', func=lambda value: value, on_error=None,
                                on_success=edzed.Event('_ctrl', 'abort',
                                                       efilter=edzed.DataEdit.add(error=excs['E'])))
-        circuit.set_persistent_data({rblk.key: 'saved', 'edzed-stop-time': 0.0})
+        # ... and a block whose saved record cannot be read (a storage failure is only logged)
+        BadState('badstate', persistent=True, sync_state=False)
+        unread = edzed.Input('unreadable', persistent=True, initdef='d')
+        circuit.set_persistent_data(FlakyStore({rblk.key: 'saved', unread.key: 'x', 'edzed-stop-time': 0.0},
+                                               bad_key=unread.key))
         # -- observe what reaches the simulator
         real_abort = circuit.abort
 
